@@ -1177,7 +1177,8 @@ class Ice40:
 
     def gen(self, rng):
         d = self.d
-        clkin = gen_clkin(rng, 10e6, 132e6)          # PFD >= 133 MHz: do_finalize leaves filter_range unbound (reported)
+        # clkin strictly below the top of clki_freq_range: at exactly 133 MHz the FILTER_RANGE table has no entry
+        clkin = gen_clkin(rng, float(d["clki_freq"][0]), min(float(d["clki_freq"][1]), 133e6) - 1)
         m = rng.choice([0, 1e-6, 1e-3, 1e-2])
         r = rng.random()
         if r < 0.85:
@@ -1197,7 +1198,7 @@ class Ice40:
                 f = 48e6
         else:
             f = rng.choice([16e6, 24e6, 48e6, 50e6, 100e6, 133.333e6, float(rng.randrange(16_000_000, 275_000_000))])
-        f = max(f, 16e6)
+        f = min(max(f, float(d["clko_freq"][0])), float(d["clko_freq"][1]))
         return {"fam": "ice40", "clkin": clkin, "out": (f, m), "prim": rng.choice(["SB_PLL40_CORE", "SB_PLL40_PAD"])}
 
 
@@ -1473,6 +1474,61 @@ class NxOsc:
         f = min(max(f, 1.76), 450e6)
         return {"fam": "nxosc", "f": f, "m": m}
 
+
+
+class NxOscFin:
+    """NXOSCA.do_finalize with an HF and an HFSDC clock: each placed divisor must serve its own request."""
+    fam = "nxoscfin"
+
+    def __init__(self, T):
+        self.d = T["nxosc"]
+
+    def lean_line(self, c):
+        return "nxosc %s %s" % (qs(c["hfsdc"][0]), qs(c["hfsdc"][1]))
+
+    def real(self, c):
+        from litex.soc.cores.clock.lattice_nx import NXOSCA
+        try:
+            o = NXOSCA()
+            if c.get("hf"):
+                o.create_hf_clk(mk_cd(0), c["hf"][0], margin=c["hf"][1])
+            o.create_hfsdc_clk(mk_cd(1), c["hfsdc"][0], margin=c["hfsdc"][1])
+            o.finalize()
+            P = instance_params(o, ("OSCA",)) or {}
+            return {"status": "ok", "hf_div": P.get("HF_CLK_DIV"), "div": int(P.get("HF_SED_SEC_DIV"))}
+        except Exception as e:
+            return {"status": status_of(e), "exc": repr(e)}
+
+    def parse(self, c, line):
+        return {"status": "rejected"} if line == "none" else {"status": "ok", "div": int(line.split()[1])}
+
+    def compare(self, c, real, model):
+        if real["status"] != model["status"] or real.get("div") != model.get("div"):
+            return "HF_SED_SEC_DIV real=%s model=%s" % (real, model)
+        return None
+
+    def oracle(self, c, real):
+        hf = self.d["hf"]
+        viol = []
+        fl = Flags()
+        if real["status"] == "ok":
+            for nm, key, req in (("HF_CLK_DIV", "hf_div", c.get("hf")), ("HF_SED_SEC_DIV", "div", c["hfsdc"])):
+                if req is None:
+                    continue
+                f, m = F(req[0]), F(req[1])
+                dv = int(real[key])
+                for x in range(*self.d["div"]):
+                    fl.cmp_le(abs(hf / (x + 1) - f), f * m, False, "margin", scale=f)
+                if not (abs(hf / (dv + 1) - f) <= f * m + SLACK * f):
+                    viol.append("%s=%d gives %s Hz, requested %s Hz margin %s" % (nm, dv, float(hf / (dv + 1)), float(f), float(m)))
+        elif real["status"] == "crash":
+            viol.append("unexpected exception " + real.get("exc", ""))
+        return viol, fl.borderline, fl.why, None
+
+    def gen(self, rng):
+        hf = self.d["hf"]
+        mk = lambda: (float(hf / rng.randrange(1, 256)), rng.choice([0.01, 0.05]))
+        return {"fam": "nxoscfin", "hf": mk() if rng.random() < 0.8 else None, "hfsdc": mk()}
 
 
 # ------------------------------------------------------------------------------------------------------------------
@@ -1934,4 +1990,4 @@ class GwOsc:
 
 
 Xilinx.first_key = lambda self, real: (real["divclk"], real["mult"])
-FAMILY_CLASSES = [Xilinx, Ecp5, Ice40, Nx, NxOsc, Intel, Gw1n, GwOsc]
+FAMILY_CLASSES = [Xilinx, Ecp5, Ice40, Nx, NxOsc, NxOscFin, Intel, Gw1n, GwOsc]
